@@ -270,6 +270,25 @@ CLAIMED = {
        "fantasies beyond one point / un-batched, FixedNoise with shared inputs and per-fantasy noise, KISS-GP after a grad-enabled prediction, "
        "KISS-GP with fixed noise. Models above max_cholesky_size (Lanczos update) are outside the bound.",
   technique="contract-based deductive verification: AST-extracted real function, structural deepcopy model, frame obligations on object identity, modular callee contracts (stubs), z3"),
+ "C09": dict(
+  category="other",
+  text="Proof tier (counted): Keys' cubic convolution kernel (Interpolation._cubic_interpolation_kernel) equals the documented piecewise cubic and, "
+       "for EVERY fractional offset s in [0, 1), its four weights sum to one, are (0,1,0,0) at a node and reproduce linear and quadratic functions "
+       "(polynomial identities discharged by z3); MultitaskKernel.forward = K_x[i,j] K_t[a,b] at row i*T+a, column j*T+b (interleaved Kronecker "
+       "layout; symbolic n1, n2, T, batch; diag = its diagonal); IndexKernel: B B^T + diag(v) looked up at the task indices; LCMKernel = the sum "
+       "of its components, each evaluated once on the inputs. Bounded tier (not counted): Index / Hadamard / Multitask / LCM / Grid (Toeplitz on and "
+       "off, ragged, up to 3-4 dims) kernels vs explicit dense formulas; InducingPointKernel = Kxz Kzz^-1 Kzx (+ documented diagonal correction), "
+       "n*MLL = Titsias bound, SGPR predictive equations; KISS-GP (fixed and data-determined grids, fantasy update, setting sequences), SGPR and "
+       "RFF prediction strategies vs the dense conditional of the approximate kernel matrix under Cholesky / CG, fast_pred_var, fast_pred_samples, "
+       "sgpr_diagonal_correction; multi-d interpolation weights with different grids per dimension, reproduction of quadratics, O(h^3) error, "
+       "convergence of the interpolated kernel under grid refinement; eval-mode re-gridding.",
+  design_ref="DESIGN.md section 5, C09",
+  note="The Toeplitz / Kronecker grid algebra, the Nystrom / SGPR algebra (Cholesky solves) and the kernel-specific prediction strategies are "
+       "bounded-tier only (dependency operators; tolerances 1e-6, 1e-5 where jittered root decompositions are involved, 1e-2 on CG paths whose stopping "
+       "rule ignores cg_tolerance). 'Converges as the grid is refined' is an analysis statement checked on a refinement sequence. Known findings: "
+       "GridKernel on batched grids, IndexKernel diag with a kernel batch, SGPR prediction at the training inputs (two defects), KISS-GP fantasy with "
+       "fast_pred_samples, KISS-GP + fixed noise fantasy, out-of-range re-gridding with stale prediction caches.",
+  technique="contract-based deductive verification: AST-extracted real functions, elementwise tensor domain (interleaved index arithmetic, binder-free sums), z3"),
 }
 REASON_NOT_BUILT = "contracts for this property are not built yet in this revision (see DESIGN.md section 9 build order); not claimed until its obligations are discharged by the checker"
 
